@@ -151,4 +151,133 @@ example : extractRR (putrrhead 28 300 (some [0x61, 0x62]) true ++ (be32 5 ++ [1,
     (Or.inr ⟨_, rfl, rfl⟩) (by simp)]
   simp
 
+/-! ## 3. the four sentences of the statement, as corollaries of `Spec.answer` alone
+
+`specCut z q qtype l = some (cut, auth, parentServed)` names what `Spec.answer` computes first: the
+closest ancestor-or-self of `q` owning a visible non-wildcard NS record (`cutOf_closest`), whether
+it also owns a visible SOA (`auth`), both taken on the parent side for a DS query at a delegation. -/
+
+section SpecSanity
+open Spec
+
+/-- a small zone used for the non-vacuity examples: `ex.com` (SOA, NS), a delegation
+`sub.ex.com`, a wildcard `*.w.ex.com`, an untagged and a tagged (`ab`) address at `www.ex.com` -/
+def B (s : String) : Bytes := Bytes.ofString s
+def N (s : List String) : List Bytes := s.map B
+def soaRd : Bytes :=
+  nm ["ns1", "ex", "com"] ++ nm ["adm", "ex", "com"] ++ be32 7 ++ be32 1 ++ be32 2 ++ be32 3 ++ be32 4
+
+def sampleRecs : List Rec := [
+  ⟨N ["ex", "com"], false, [0, 0], 6, 2560, 0, soaRd⟩,
+  ⟨N ["www", "ex", "com"], false, [0, 0], 1, 300, 1, [1, 2, 3, 4]⟩,
+  ⟨N ["ex", "com"], false, [0, 0], 2, 259200, 0, nm ["ns1", "ex", "com"]⟩,
+  ⟨N ["ns1", "ex", "com"], false, [0, 0], 1, 60, 1, [5, 5, 5, 5]⟩,
+  ⟨N ["sub", "ex", "com"], false, [0, 0], 2, 259200, 0, nm ["ns", "sub", "ex", "com"]⟩,
+  ⟨N ["ns", "sub", "ex", "com"], false, [0, 0], 1, 60, 1, [6, 6, 6, 6]⟩,
+  ⟨N ["w", "ex", "com"], true, [0, 0], 16, 30, 0, [1, 65]⟩,
+  ⟨N ["www", "ex", "com"], false, B "ab", 1, 300, 2, [1, 2, 3, 5]⟩,
+  ⟨N ["ex", "com"], false, [0, 0], 15, 86400, 0, be16 10 ++ nm ["www", "ex", "com"]⟩]
+
+def sampleZone : Zone := ⟨sampleRecs, [], []⟩
+
+/-- REFUSED exactly when no ancestor-or-self of the name owns a visible non-wildcard NS record. -/
+theorem spec_refused_iff (z : Zone) (q : List Bytes) (qtype qclass maxAns : Nat) (l : Bytes) :
+    (Spec.answer z q qtype qclass maxAns l).rcode = 5 ↔
+      ∀ a ∈ ancestorsOrSelf q,
+        ¬ ∃ r ∈ z.recs, r.owner = a ∧ r.wild = false ∧ r.type = 2 ∧ visible l r = true :=
+  ServeRefine.spec_refused_iff z q qtype qclass maxAns l
+
+/-- A REFUSED answer is bare: not authoritative, all sections empty. -/
+theorem spec_refused_empty (z : Zone) (q : List Bytes) (qtype qclass maxAns : Nat) (l : Bytes)
+    (h : (Spec.answer z q qtype qclass maxAns l).rcode = 5) :
+    let A := Spec.answer z q qtype qclass maxAns l
+    A.aa = false ∧ A.answer = [] ∧ A.answerAddrs = [] ∧ A.authority = [] ∧ A.additional = [] :=
+  ServeRefine.spec_refused_empty z q qtype qclass maxAns l h
+
+example : (Spec.answer sampleZone (N ["www", "other", "org"]) 1 1 1 [0, 0]).rcode = 5 := by
+  decide +kernel
+example : (Spec.answer sampleZone (N ["www", "ex", "com"]) 1 1 1 [0, 0]).rcode = 0 := by
+  decide +kernel
+
+/-- NXDOMAIN exactly when the answer is authoritative and `recordsFor` is empty … -/
+theorem spec_nxdomain_iff (z : Zone) (q : List Bytes) (qtype qclass maxAns : Nat) (l : Bytes) :
+    (Spec.answer z q qtype qclass maxAns l).rcode = 3 ↔
+      ∃ cut ps, specCut z q qtype l = some (cut, true, ps) ∧ recordsFor z.recs l q cut = [] :=
+  ServeRefine.spec_nxdomain_iff z q qtype qclass maxAns l
+
+/-- … and `recordsFor` is empty exactly when neither the name nor any covering wildcard owns a
+visible record. -/
+theorem spec_no_records_iff (recs : List Rec) (l : Bytes) (q cut : List Bytes) :
+    recordsFor recs l q cut = [] ↔
+      (∀ r ∈ recs, ¬ (r.owner = q ∧ r.wild = false ∧ visible l r = true)) ∧
+      ∀ stripped p, CoveredBy q cut stripped p →
+        ∀ r ∈ recs, ¬ (r.owner = p ∧ r.wild = true ∧ visible l r = true) :=
+  recordsFor_eq_nil_iff recs l q cut
+
+example : (Spec.answer sampleZone (N ["nope", "ex", "com"]) 1 1 1 [0, 0]).rcode = 3 := by
+  decide +kernel
+-- a name covered by a wildcard is NODATA for another type, not NXDOMAIN
+example : (Spec.answer sampleZone (N ["x", "w", "ex", "com"]) 1 1 1 [0, 0]).rcode = 0 := by
+  decide +kernel
+
+/-- An authoritative answer whose answer section is empty (no plain record, no address candidate of
+positive weight) has exactly the visible SOA of the cut as its authority section. -/
+theorem spec_empty_auth_has_soa (z : Zone) (q : List Bytes) (qtype qclass maxAns : Nat) (l : Bytes)
+    (haa : (Spec.answer z q qtype qclass maxAns l).aa = true)
+    (hans : (Spec.answer z q qtype qclass maxAns l).answer = [])
+    (hgrp : ∀ g ∈ (Spec.answer z q qtype qclass maxAns l).answerAddrs, ∀ c ∈ g.cands, c.2.1 = 0) :
+    ∃ cut ps r, specCut z q qtype l = some (cut, true, ps) ∧ r ∈ z.recs ∧ r.owner = cut ∧
+      r.wild = false ∧ r.type = 6 ∧ visible l r = true ∧
+      (Spec.answer z q qtype qclass maxAns l).authority = [⟨cut, 6, 1, r.ttl, r.rdata⟩] :=
+  ServeRefine.spec_empty_auth_has_soa z q qtype qclass maxAns l haa hans hgrp
+
+example : (Spec.answer sampleZone (N ["nope", "ex", "com"]) 1 1 1 [0, 0]).authority
+    = [⟨N ["ex", "com"], 6, 1, 2560, soaRd⟩] := by
+  decide +kernel
+
+/-- What `recordsFor` returns: the name's own visible records; or — only when it has none —
+visible wildcard records `*.p` where `p` is reached from the name by stripping at least one label,
+every stripped label is wild-safe, and the cut is not crossed (`CoveredBy`). -/
+theorem spec_wildcard_scope (recs : List Rec) (l : Bytes) (q cut : List Bytes) (r : Rec)
+    (h : r ∈ recordsFor recs l q cut) :
+    r ∈ recs ∧ visible l r = true ∧
+      ((r.owner = q ∧ r.wild = false) ∨
+       ((∀ r' ∈ recs, ¬ (r'.owner = q ∧ r'.wild = false ∧ visible l r' = true)) ∧ r.wild = true ∧
+          ∃ stripped, q = stripped ++ r.owner ∧ stripped ≠ [] ∧
+            (∀ lab ∈ stripped, wildsafe lab = true) ∧
+            ∀ j, j < stripped.length → q.drop j ≠ cut)) :=
+  recordsFor_mem recs l q cut r h
+
+example : recordsFor sampleRecs [0, 0] (N ["x", "y", "w", "ex", "com"]) (N ["ex", "com"])
+    = [⟨N ["w", "ex", "com"], true, [0, 0], 16, 30, 0, [1, 65]⟩] := by
+  decide +kernel
+-- a label that is not wild-safe stops the walk
+example : recordsFor sampleRecs [0, 0] (N ["a!b", "w", "ex", "com"]) (N ["ex", "com"]) = [] := by
+  decide +kernel
+
+/-- At or below a delegation (the cut owns no visible SOA; for DS the parent side is served):
+NOERROR, not authoritative, empty answer, authority = the visible NS records of the cut. -/
+theorem spec_referral (z : Zone) (q : List Bytes) (qtype qclass maxAns : Nat) (l : Bytes)
+    (cut : List Bytes) (hs : specCut z q qtype l = some (cut, false, true)) :
+    let A := Spec.answer z q qtype qclass maxAns l
+    A.rcode = 0 ∧ A.aa = false ∧ A.answer = [] ∧ A.answerAddrs = [] ∧
+      A.authority = (z.recs.filter fun r => r.owner = cut ∧ r.wild = false ∧ r.type = 2 ∧ visible l r).map
+        fun r => ⟨cut, 2, qclass, r.ttl, r.rdata⟩ :=
+  ServeRefine.spec_referral z q qtype qclass maxAns l cut hs
+
+/-- for every query type but DS, `specCut` is the closest NS owner and its SOA flag -/
+theorem specCut_plain (z : Zone) (q : List Bytes) (qtype : Nat) (l : Bytes) (cut : List Bytes)
+    (hq : qtype ≠ 43) (hc : cutOf z.recs l q = some cut) :
+    specCut z q qtype l = some (cut, hasT z.recs l cut 6, true) :=
+  ServeRefine.specCut_plain z q qtype l cut hq hc
+
+example : specCut sampleZone (N ["a", "sub", "ex", "com"]) 1 [0, 0]
+    = some (N ["sub", "ex", "com"], false, true) := by
+  decide +kernel
+example : (Spec.answer sampleZone (N ["a", "sub", "ex", "com"]) 1 1 1 [0, 0]).additional
+    = [⟨N ["ns", "sub", "ex", "com"], 1, 1, [(60, 1, [6, 6, 6, 6])], 1⟩] := by
+  decide +kernel
+
+end SpecSanity
+
 end DnsVerif.Props.C01
